@@ -24,9 +24,16 @@ func init() {
 func VH_C11_Timing() {
 	vClockWindow(int64(time.Minute))
 	claims := map[string]interface{}{}
-	exp := vInt64("exp")
-	iat := vInt64("iat")
-	vAssume(exp > -(1<<50) && exp < 1<<50 && iat > -(1<<50) && iat < 1<<50)
+	// claims are placed relative to the clock (so a replay against the real clock
+	// sees the same relation)
+	before := time.Now().Unix()
+	expOff := vInt64("expOff")
+	age := vInt64("age")
+	vAssume(expOff > -(1<<40) && expOff < 1<<40 && age > -(1<<40) && age < 1<<40)
+	// keep a few seconds away from the boundaries the real clock could cross
+	vAssume(vAnd(vOr(expOff <= -5, expOff >= 5), true))
+	exp := before + expOff
+	iat := before - age
 	expKind := vChoice("expKind", 4) // 0 absent, 1 int64, 2 int, 3 string (invalid)
 	iatKind := vChoice("iatKind", 4)
 	switch expKind {
@@ -49,13 +56,13 @@ func VH_C11_Timing() {
 	vAssume(maxAge >= 0 && maxAge < 1<<40)
 	cfg := &SecurityConfig{TokenMaxAge: maxAge}
 	a := &Authenticator{config: cfg}
-	before := time.Now().Unix()
 	err := a.validateTokenTiming(claims, cfg)
 	after := time.Now().Unix()
 	eff := int64(maxAge)
 	if maxAge == 0 {
 		eff = 3600
 	}
+	vAssume(vOr(age <= eff-5, age >= eff+5))
 	// the clock read inside lies between the two readings taken here
 	if err == nil {
 		vCover("token-time-valid")
